@@ -322,7 +322,44 @@ func (p *Path) visitInstr(fr *frame, instr ssa.Instruction) continuation {
 		panic("unreachable: phi")
 
 	case *ssa.Select:
-		p.abortf("select statement reached in %s (iterator internals must be stubbed)", fr.fn)
+		// sequential semantics: take the first case (in source order) that can proceed
+		chosen := -1
+		var recvVal Value
+		recvOk := false
+		for i, st := range instr.States {
+			ch, _ := fr.get(st.Chan).(*Chan)
+			if ch == nil {
+				continue // a nil channel is never ready
+			}
+			if st.Dir == types.SendOnly {
+				if ch.closed {
+					panic(targetPanic{msg: "send on closed channel"})
+				}
+				if len(ch.q) < ch.cap+p.chanSlack {
+					ch.q = append(ch.q, copyVal(fr.get(st.Send)))
+					chosen = i
+					break
+				}
+			} else if len(ch.q) > 0 || ch.closed {
+				recvVal, recvOk = p.chanRecv(ch)
+				chosen = i
+				break
+			}
+		}
+		if chosen < 0 && instr.Blocking {
+			panic(targetPanic{msg: "select: no case can proceed: would block forever (deadlock) in sequential semantics"})
+		}
+		r := Tuple{intConst(int64(chosen)), smt.ConstBool(recvOk)}
+		for i, st := range instr.States {
+			if st.Dir == types.RecvOnly {
+				if i == chosen && recvOk {
+					r = append(r, recvVal)
+				} else {
+					r = append(r, zero(st.Chan.Type().Underlying().(*types.Chan).Elem()))
+				}
+			}
+		}
+		fr.env[instr] = r
 
 	default:
 		panic(fmt.Sprintf("unexpected instruction: %T", instr))
